@@ -281,3 +281,10 @@ def main_wrapper(fn):
         log(f"TOOL-ERROR: timeout {e}")
         sys.exit(2)
     sys.exit(rc)
+
+
+def generic_replay(path):
+    build_harness()
+    r = vh(["replay", "--in", path], name="replay")
+    print(json.dumps(r, indent=1)[:6000])
+    return 1 if (r.get("violations") or "crashed" in r) else 0
